@@ -394,25 +394,28 @@ def run_conc(tier, seed, log, kinds=None, n_override=None):
     worker_sets = [1, 4] if tier == "quick" else [1, 2, 4, 8]
     runs = 0
     samples = []
+    retried = []
     for workers in worker_sets:
-        path = runner.WORK + "/conc-%d-w%d.ops" % (seed, workers)
-        with open(path, "w") as f:
-            for name, cfg, setup, burst in scenarios:
-                f.write("seq %s\n" % name)
-                for l in cfg:
-                    f.write(l + "\n")
-                f.write("begin\nsetup\n")
-                for o in setup:
-                    f.write(o + "\n")
-                f.write("burst\n")
-                for c in sorted(burst):
-                    for o in burst[c]:
+        def impl_run(scens, tag=""):
+            path = runner.WORK + "/conc-%d-w%d%s.ops" % (seed, workers, tag)
+            with open(path, "w") as f:
+                for name, cfg, setup, burst in scens:
+                    f.write("seq %s\n" % name)
+                    for l in cfg:
+                        f.write(l + "\n")
+                    f.write("begin\nsetup\n")
+                    for o in setup:
                         f.write(o + "\n")
-                f.write("endburst\nend\n")
-        ri = runner.sh([runner.HARNESS, "conc", path], timeout=3000, env={"VERIF_WORKERS": str(workers)})
-        if ri.returncode != 0:
-            raise runner.BuildError("conc mode failed: " + ri.stderr[-800:])
-        impl = parse_conc_impl(ri.stdout)
+                    f.write("burst\n")
+                    for c in sorted(burst):
+                        for o in burst[c]:
+                            f.write(o + "\n")
+                    f.write("endburst\nend\n")
+            ri = runner.sh([runner.HARNESS, "conc", path], timeout=3000, env={"VERIF_WORKERS": str(workers)})
+            if ri.returncode != 0:
+                raise runner.BuildError("conc mode failed: " + ri.stderr[-800:])
+            return parse_conc_impl(ri.stdout)
+        impl = impl_run(scenarios)
         # model: every interleaving of every scenario, one orchestrated sequence each
         mpath = runner.WORK + "/conc-model-%d.ops" % seed
         index = []
@@ -444,20 +447,14 @@ def run_conc(tier, seed, log, kinds=None, n_override=None):
                     outs[c] += ls
             final = conc_state(ms.ops[-1].st) if ms.ops else []
             by_name[name].append((il, {c: conc_canon_lines(v) for c, v in outs.items() if v}, final))
-        for name, cfg, setup, burst in scenarios:
-            runs += 1
-            im = impl.get(name)
-            if im is None:
-                continue
+        def judge(name, cfg, setup, burst, im):
+            """None if the observed run is explained by some interleaving, else (signature, detail)"""
             if any("timeout" in l for ls in im["outs"].values() for l in ls) or im["events"]:
-                sig = "conc:server-stalled"
-                if sig not in seen:
-                    seen.add(sig)
-                    violations.append((sig, {"what": "a live connection was not answered after the burst", "cfg": cfg,
-                                             "setup": runner.render_ops(setup),
-                                             "burst": {str(c): runner.render_ops(v) for c, v in burst.items()},
-                                             "impl_out": {str(c): v[-5:] for c, v in im["outs"].items()}, "workers": workers}))
-                continue
+                return ("conc:server-stalled",
+                        {"what": "a live connection was not answered after the burst", "cfg": cfg,
+                         "setup": runner.render_ops(setup), "events": im["events"],
+                         "burst": {str(c): runner.render_ops(v) for c, v in burst.items()},
+                         "impl_out": {str(c): v[-5:] for c, v in im["outs"].items()}, "workers": workers})
             iouts = {c: conc_canon_lines(v) for c, v in im["outs"].items() if v}
             ifinal = conc_state(im["final"])
             # a connection that ends during the burst loses whatever was still queued for it
@@ -475,25 +472,54 @@ def run_conc(tier, seed, log, kinds=None, n_override=None):
                     elif a != b:
                         return False
                 return True
-            ok = any(explains(o) and fs == ifinal for (_, o, fs) in by_name[name])
-            if not ok:
-                state_ok = any(fs == ifinal for (_, o, fs) in by_name[name])
-                sig = "conc:not-linearizable"
-                if sig not in seen:
-                    seen.add(sig)
-                    violations.append((sig, {
-                        "what": "no order of the concurrently issued commands (respecting each connection's own order) explains the observed replies and final state",
-                        "cfg": cfg, "setup": runner.render_ops(setup),
-                        "burst": {str(c): runner.render_ops(v) for c, v in burst.items()},
-                        "impl_out": {str(c): v for c, v in iouts.items()}, "impl_final_state": ifinal,
-                        "some_model_out": {str(c): v for c, v in by_name[name][0][1].items()},
-                        "final_state_explained": state_ok, "interleavings_tried": len(by_name[name]), "workers": workers}))
+            if any(explains(o) and fs == ifinal for (_, o, fs) in by_name[name]):
+                return None
+            state_ok = any(fs == ifinal for (_, o, fs) in by_name[name])
+            best = min(by_name[name], key=lambda t: sum(
+                sum((collections.Counter(iouts.get(c, [])) - collections.Counter(t[1].get(c, []))).values()) +
+                sum((collections.Counter(t[1].get(c, [])) - collections.Counter(iouts.get(c, []))).values())
+                for c in set(iouts) | set(t[1])))
+            delta = {}
+            for c in set(iouts) | set(best[1]):
+                a, b = collections.Counter(iouts.get(c, [])), collections.Counter(best[1].get(c, []))
+                if a != b:
+                    delta[str(c)] = {"only_impl": list((a - b).elements())[:6], "only_model": list((b - a).elements())[:6]}
+            return ("conc:not-linearizable", {
+                "what": "no order of the concurrently issued commands (respecting each connection's own order) explains the observed replies and final state",
+                "cfg": cfg, "setup": runner.render_ops(setup),
+                "burst": {str(c): runner.render_ops(v) for c, v in burst.items()},
+                "impl_out": {str(c): v for c, v in iouts.items()}, "impl_final_state": ifinal,
+                "closest_model_out": {str(c): v for c, v in best[1].items()}, "difference_to_closest": delta,
+                "final_state_explained": state_ok, "interleavings_tried": len(by_name[name]), "workers": workers})
+
+        for name, cfg, setup, burst in scenarios:
+            runs += 1
+            im = impl.get(name)
+            if im is None:
+                continue
+            bad = judge(name, cfg, setup, burst, im)
+            if bad is not None:
+                # scheduling on a loaded machine can starve the harness itself: a failure counts
+                # only if the same scenario fails again when re-run on its own (up to 4 re-runs)
+                again = 0
+                for k in range(4):
+                    im2 = impl_run([(name, cfg, setup, burst)], tag="-re").get(name)
+                    if im2 is not None and judge(name, cfg, setup, burst, im2) is not None:
+                        again += 1
+                        break
+                retried.append({"scenario": name, "signature": bad[0], "reproduced": bool(again),
+                                "detail": bad[1].get("difference_to_closest") or bad[1].get("impl_out")})
+                if again and bad[0] not in seen:
+                    seen.add(bad[0])
+                    bad[1]["reproduced_on_rerun"] = True
+                    violations.append(bad)
             if len(samples) < 1:
                 samples.append({"scenario": name, "setup": runner.render_ops(setup)[:8],
                                 "burst": {str(c): runner.render_ops(v) for c, v in burst.items()}})
     cov = {"evaluations": runs, "conc_scenarios": len(scenarios), "interleavings_modelled": n_inter,
            "scenarios_exhaustively_interleaved": n_exh, "worker_thread_settings": worker_sets,
            "distinct_nontrivial": len({(tuple(sorted((c, tuple(v)) for c, v in b.items()))) for _, _, _, b in scenarios}),
+           "first_run_failures_rechecked": retried,
            "rule": "real run_server on a multi-thread runtime; a case is one burst of simultaneously issued commands; it passes if SOME interleaving of the burst (all of them enumerated when <= cap) run sequentially on the Lean model yields the observed per-connection reply multisets and final shared state"}
     return {"coverage": cov, "samples": samples, "violations": violations}
 
